@@ -52,6 +52,14 @@ func c18Base() *spec.Program {
 	m("RootG", nil, f("GStr", 1, spec.KString), f("GItems", 2, spec.KMessage, ref("Holder"), list), f("GMap", 3, spec.KMessage, ref("Holder"), mp, nn))
 	// a second selected type that reaches the same embedding message (same error text for both)
 	m("RootH", nil, f("HName", 1, spec.KString), f("HRef", 2, spec.KMessage, ref("Holder")))
+	// message-kind fields that carry a custom type (custom_types, path form): what lies below them still
+	// belongs to the selected type
+	m("CTIn", nil, f("InStr", 1, spec.KString))
+	m("CT", nil, f("CtStr", 1, spec.KString), f("CtIn", 2, spec.KMessage, ref("CTIn")))
+	m("CTL", nil, f("ClStr", 1, spec.KString))
+	m("CTM", nil, f("CmStr", 1, spec.KString))
+	m("RootI", nil, f("IStr", 1, spec.KString), f("ISpec", 2, spec.KMessage, ref("CT")), f("IItems", 3, spec.KMessage, ref("CTL"), list),
+		f("IByKey", 4, spec.KMessage, ref("CTM"), mp))
 	m("RootBExt", nil, f("BxStr", 1, spec.KString), f("BxInner", 2, spec.KMessage, ref("Inner")))
 	m("RootD2", nil, f("D2Str", 1, spec.KString))
 	// a chain of twelve nested messages (singular, list and map links alternate)
@@ -73,11 +81,12 @@ func c18Base() *spec.Program {
 	m("Clean", nil, f("Name", 1, spec.KString), f("Count", 2, spec.KInt64), f("Inner", 3, spec.KMessage, ref("Inner"), nn))
 	m("Unselected", nil, f("UStr", 1, spec.KString))
 	p.Config = spec.Config{
-		Types:          []string{"RootAExt", "RootA", "RootF", "RootB", "RootC", "RootD", "RootE", "RootG", "RootH", "RootDeep", "RootBExt", "RootD2", "Clean"},
+		Types:          []string{"RootAExt", "RootA", "RootF", "RootB", "RootC", "RootD", "RootE", "RootG", "RootH", "RootI", "RootDeep", "RootBExt", "RootD2", "Clean"},
 		ComputedFields: []string{"Clean.Count"},
 		// configured although duration_type is not: a field cast to it has no mapping
 		DurationCustomType: spec.DurationCastName,
 		NameOverrides:      map[string]string{"Clean.Name": "clean_name"},
+		CustomTypes:        map[string]string{"RootI.ISpec": "SpecCustom", "RootI.IItems": "ItemsCustom", "RootI.IByKey": "ByKeyCustom"},
 	}
 	return p
 }
@@ -164,6 +173,10 @@ var badPositions = []badPos{
 	{name: "depth-12", msg: "D12", pathKeys: func(f string) []string {
 		return []string{"RootDeep.Chain" + strings.Repeat(".Next", 11) + "." + f}
 	}},
+	{name: "below-custom-typed-message", msg: "CT", pathKeys: func(f string) []string { return []string{"RootI.ISpec." + f} }},
+	{name: "depth-2-below-custom-typed-message", msg: "CTIn", first: true, pathKeys: func(f string) []string { return []string{"RootI.ISpec.CtIn." + f} }},
+	{name: "below-custom-typed-list", msg: "CTL", pathKeys: func(f string) []string { return []string{"RootI.IItems." + f} }},
+	{name: "below-custom-typed-map", msg: "CTM", pathKeys: func(f string) []string { return []string{"RootI.IByKey." + f} }},
 	{name: "embedded", msg: "EmbX", pathKeys: nil},
 	// README: options below an embedded field are keyed by the name of the embedding message
 	{name: "embedded-in-element", msg: "EmbY", pathKeys: func(f string) []string { return []string{"Holder." + f} }},
